@@ -172,11 +172,20 @@ fn gen_ops(rng: &mut Rng, n_clients: usize, n: usize, tag: &mut usize, phase: us
                     .collect();
                 DOp::LastWill { c, kvs }
             }
-            18 => DOp::ImportCas {
-                key,
-                value: json!(format!("imp{phase}_{tag}")),
-                version: *rng.pick(&[1u64, 7, u64::MAX - 1, u64::MAX]),
-            },
+            18 => {
+                if !written.is_empty() && rng.chance(1, 2) {
+                    // re-states the value a key already holds, as a CAS entry with some version:
+                    // only kind and version change
+                    let (k, v) = rng.pick(&written).clone();
+                    DOp::ImportCas { key: k, value: v, version: *rng.pick(&[1u64, 2, 7, u64::MAX - 1]) }
+                } else {
+                    DOp::ImportCas {
+                        key,
+                        value: json!(format!("imp{phase}_{tag}")),
+                        version: *rng.pick(&[1u64, 7, u64::MAX - 1, u64::MAX]),
+                    }
+                }
+            }
             _ => DOp::Disconnect { c },
         };
         ops.push(op);
